@@ -31,8 +31,10 @@ DOC_PATHS = ["pyspark", "pyspark.sql"] + ["pyspark.sql." + f for f in DOC_SUBS] 
 ENVS = ["sandbox", "healthy", "absent"]
 BAD_RAISES = ["duckdb", "postgres", "snowflake", "bigquery"]   # session construction uses the connection at once
 NO_CONN_NEEDED = ["duckdb", "standalone"]                      # engines that can make a session without a connection
-DIALECT_IDS = {"duckdb": 11, "spark": 12, "snowflake": 13}
-DIALECT_KEY = "sqlframe.input.dialect"
+DIALECT_IDS = c20_facts.DIALECT_IDS
+DIALECT_KEYS = ["sqlframe.input.dialect", "sqlframe.output.dialect", "sqlframe.execution.dialect"]
+DIALECT_KEY = DIALECT_KEYS[0]
+DIALECT_VALUES = ["duckdb", "spark", "snowflake", "bigquery", "postgres"]
 
 HEADER = """From SF Require Import C20.Activate.
 From Gen Require Import C20Facts.
@@ -99,6 +101,10 @@ def event_coq(ev):
         return f"(Import F{ev[1]} {path_coq(ev[2])})"
     if k == "loadf":
         return f"(LoadFunctions {strlit(ev[1])})"
+    if k == "bconf":
+        return f"(BuilderConfig {'true' if ev[1] == 'key' else 'false'} {kv_coq(ev[2])})"
+    if k == "dial":
+        return "ReadDialects"
     raise ValueError(ev)
 
 
@@ -117,6 +123,13 @@ def obs_coq(ev, r):
             return f"(EMod (Sf {strlit(r[1])} {strlit(r[2])}))"
         return {"testing": "(EMod Testing)", "real": "(EMod Real)", "importerror": "EImportError",
                 "error": "EError"}.get(t, "EOther")
+    if k == "dial":
+        if t != "dial":
+            return "EOther"
+        if r[1] is None:
+            return "(EDial None)"
+        ids = [DIALECT_IDS.get(x, 0) for x in r[1]]
+        return f"(EDial (Some ({ids[0]}, ({ids[1]}, {ids[2]}))))"
     return {"ok": "EOk", "raised": "ERaised"}.get(t, "EOther")
 
 
@@ -178,6 +191,23 @@ def random_shape(rnd, n):
     return sh
 
 
+def rand_dialects(rnd):
+    """a config dict with one to three of the dialect keys (each key is used about equally often)"""
+    keys = [k for k in DIALECT_KEYS if rnd.random() < 0.5] or [rnd.choice(DIALECT_KEYS)]
+    rnd.shuffle(keys)
+    return {k: rnd.choice(DIALECT_VALUES) for k in keys}
+
+
+def with_dial(evs):
+    """every getOrCreate is followed by a look at the dialects of the session it returned"""
+    out = []
+    for ev in evs:
+        out.append(ev)
+        if ev[0] == "goc":
+            out.append(["dial"])
+    return out
+
+
 def decorate(shape, rnd, pair, env, names_tables):
     """core shape -> concrete event list with probes"""
     engines = pair
@@ -203,8 +233,11 @@ def decorate(shape, rnd, pair, env, names_tables):
             return ["imp", rnd.choice("AASB"), "pyspark.sql.functions"]
         if k < 0.55:
             return ["imp", rnd.choice("ASB"), rnd.choice(DOC_PATHS)]
-        if k < 0.80:
+        if k < 0.76:
             return ["goc"]
+        if k < 0.84:
+            d = rand_dialects(rnd)
+            return ["bconf", "key", {kk: d[kk] for kk in list(d)[:1]}] if rnd.random() < 0.5 else ["bconf", "map", d]
         if k < 0.90:
             return ["loadf", rnd.choice(engines)]
         return ["imp", "A", "pyspark.sql.types"]
@@ -218,7 +251,7 @@ def decorate(shape, rnd, pair, env, names_tables):
                 conn = rnd.choice([None, 1, 2])
             else:
                 conn = rnd.choice([1, 2])
-            cfg = {} if rnd.random() < 0.7 else {DIALECT_KEY: rnd.choice(sorted(DIALECT_IDS))}
+            cfg = rand_dialects(rnd) if rnd.random() < 0.45 else {}
             evs.append(["act" if sym[0] == "A" else "enter", e, conn, cfg])
             if rnd.random() < 0.2 and e in names_tables:
                 evs.append(["names", e, names_tables[e]])
@@ -237,7 +270,7 @@ def decorate(shape, rnd, pair, env, names_tables):
     evs += [["imp", form, p] for p in order]
     if rnd.random() < 0.8:
         evs.append(["goc"])
-    return evs
+    return with_dial(evs)
 
 
 def corpus(engs):
@@ -266,6 +299,16 @@ def corpus(engs):
         ("absent", [["loadf", "snowflake"], ["enter", "snowflake", 1, {}]] + [["imp", "S", p] for p in DOC_PATHS]
          + [["goc"], ["exit", "normal"]] + [["imp", "B", p] for p in DOC_PATHS]),
     ]
+    allk = {DIALECT_KEYS[0]: "duckdb", DIALECT_KEYS[1]: "snowflake", DIALECT_KEYS[2]: "postgres"}
+    c += [
+        ("absent", [["act", "standalone", None, allk], ["goc"]]),
+        ("absent", [["act", "duckdb", 1, {DIALECT_KEYS[2]: "snowflake"}], ["goc"], ["deact"], ["act", "duckdb", 1, {}], ["goc"]]),
+        ("healthy", [["enter", "duckdb", None, {}], ["bconf", "key", {DIALECT_KEYS[2]: "bigquery"}], ["goc"],
+                     ["bconf", "map", allk], ["goc"], ["exit", "normal"], ["goc"]]),
+        ("absent", [["act", "postgres", 2, {DIALECT_KEYS[1]: "duckdb"}], ["bconf", "key", {DIALECT_KEYS[0]: "snowflake"}],
+                    ["bconf", "map", {DIALECT_KEYS[1]: "spark", DIALECT_KEYS[2]: "duckdb"}], ["goc"]]),
+    ]
+    c = [(env, with_dial(evs)) for env, evs in c]
     return [(env, evs) for env, evs in c if all(ev[0] not in ("act", "enter", "loadf") or ev[1] in engs for ev in evs)]
 
 
@@ -359,6 +402,11 @@ def describe(ev):
         return f"import sqlframe.{ev[1]}.functions"
     if k == "names":
         return f"identity of the documented classes under pyspark.sql.* vs sqlframe.{ev[1]}"
+    if k == "bconf":
+        return ("SparkSession.builder.config(" + ", ".join(f"{a!r}, {b!r}" for a, b in ev[2].items()) + ")" if ev[1] == "key"
+                else f"SparkSession.builder.config(map={ev[2]})")
+    if k == "dial":
+        return "[type(getattr(session, a)).__name__ for a in (input_dialect, output_dialect, execution_dialect)]"
     return str(ev)
 
 
@@ -455,7 +503,13 @@ def evaluate(ctx, keep, verdicts, proved, n_exh, n_scripts, info):
         hist_env[sc["env"]] = hist_env.get(sc["env"], 0) + 1
         hist_origin[sc["origin"]] = hist_origin.get(sc["origin"], 0) + 1
         for ev in sc["events"]:
-            kk = ev[0] + (":" + ev[1] if ev[0] in ("exit", "imp") else "")
+            kk = ev[0] + (":" + ev[1] if ev[0] in ("exit", "imp", "bconf") else "")
+            if ev[0] in ("act", "enter"):
+                for dk in ev[3]:
+                    hist_kind["config:" + dk] = hist_kind.get("config:" + dk, 0) + 1
+            if ev[0] == "bconf":
+                for dk in ev[2]:
+                    hist_kind["bconf-" + ev[1] + ":" + dk] = hist_kind.get("bconf-" + ev[1] + ":" + dk, 0) + 1
             hist_kind[kk] = hist_kind.get(kk, 0) + 1
         if proved and in_dom and not model_conf:
             ctx.broken("theorem-vs-evaluation", "in-domain script whose model run the Spec rejects: " + key[:300])
@@ -572,6 +626,9 @@ def demanded(evs, idx, env):
         return "returns without raising a new exception; ACTIVATE_CONFIG == {}; imports as before any activation"
     if ev[0] == "imp":
         return f"sqlframe's module for engine {active!r}" if active else base + "; ACTIVATE_CONFIG == {}"
+    if ev[0] == "dial":
+        return ("each dialect given in the activation's config (else: given through builder.config during this activation) is the "
+                "session's; the others are the engine's default or a value given to this engine earlier")
     if ev[0] == "goc":
         return (f"a session of engine {active!r} holding a connection given to that engine" if active
                 else "the real SparkSession / ImportError as before any activation; ACTIVATE_CONFIG == {}")
